@@ -515,6 +515,7 @@ type FuncContract struct {
 	CallAsserts map[string][]Clause // callee key suffix -> asserted preconditions at call sites
 	Havoc     []string
 	Witness   []SExpr // candidate witness expressions for existential clauses
+	Extern    string  // package path for package-scoped extern contracts
 }
 
 type LetSpec struct {
@@ -551,7 +552,8 @@ type PkgContracts struct {
 type GhostVar struct{ Name, Type, Pkg string }
 
 type ContractDB struct {
-	Ghosts []GhostVar
+	Ghosts  []GhostVar
+	Externs map[string]map[string]*FuncContract // package path -> key -> contract
 	Pkgs    map[string]*PkgContracts // by package path
 	Funcs   map[string]*FuncContract // all, by key
 	Specs   map[string]*SpecFunc     // global namespace
@@ -562,7 +564,7 @@ type ContractDB struct {
 }
 
 func newContractDB() *ContractDB {
-	return &ContractDB{Pkgs: map[string]*PkgContracts{}, Funcs: map[string]*FuncContract{}, Specs: map[string]*SpecFunc{}, Opaque: map[string]string{}, Lemmas: map[string][]Clause{}, Types: map[string]*TypeSpec{}}
+	return &ContractDB{Externs: map[string]map[string]*FuncContract{}, Pkgs: map[string]*PkgContracts{}, Funcs: map[string]*FuncContract{}, Specs: map[string]*SpecFunc{}, Opaque: map[string]string{}, Lemmas: map[string][]Clause{}, Types: map[string]*TypeSpec{}}
 }
 
 var clauseKeywords = map[string]bool{
@@ -570,7 +572,7 @@ var clauseKeywords = map[string]bool{
 	"requires": true, "ensures": true, "assigns": true, "loop": true, "inline": true,
 	"invariant": true, "guarded_by": true, "opaque": true, "trusted": true, "may_panic": true,
 	"wire": true, "noverify": true, "sort": true, "note": true, "let": true, "import": true,
-	"pure": true, "callassert": true, "havoc": true, "witness": true, "ghost": true,
+	"pure": true, "callassert": true, "havoc": true, "witness": true, "ghost": true, "extern": true,
 }
 
 // extractContractLines pulls the "//@" lines out of a Go source or .spec file
@@ -678,6 +680,16 @@ func (db *ContractDB) parseFile(pkgPath, file, src string) error {
 				return fail(fmt.Errorf("ghost <name> <type>"))
 			}
 			db.Ghosts = append(db.Ghosts, GhostVar{Name: parts[0], Type: parts[1], Pkg: pkgPath})
+		case "extern":
+			// extern func <full key>: assumed contract of an external callee,
+			// visible only to units of this package
+			curT = nil
+			key := strings.TrimSpace(strings.TrimPrefix(rest, "func"))
+			curF = &FuncContract{Key: key, File: file, Loops: map[string]*LoopSpec{}, CallAsserts: map[string][]Clause{}, Trusted: true, Extern: pkgPath}
+			if db.Externs[pkgPath] == nil {
+				db.Externs[pkgPath] = map[string]*FuncContract{}
+			}
+			db.Externs[pkgPath][key] = curF
 		case "func":
 			curT = nil
 			key := rest
